@@ -609,7 +609,26 @@ def rule_bp_cache_invalidate(ctx):
                         continue
                     n += 1
                     q = f"{c.name}.{name}[{attr}]"
-                    if touches(f, attr):
+                    # keyed writes need a keyed (or wholesale) invalidation: self.messages[K] = ...  <->  self._X.pop(K, ...) / del self._X[K] / clear()
+                    keyed = [w for w in writes if isinstance(w, (ast.Assign, ast.AugAssign)) and any(isinstance(t, ast.Subscript) for t in (w.targets if isinstance(w, ast.Assign) else [w.target]))]
+                    missing_key = None
+                    if keyed:
+                        wholesale = any((isinstance(x, ast.Call) and isinstance(x.func, ast.Attribute) and x.func.attr == "clear" and isinstance(x.func.value, ast.Attribute) and x.func.value.attr == attr)
+                                        or (isinstance(x, ast.Assign) and any(isinstance(t, ast.Attribute) and t.attr == attr for t in x.targets)) for x in ast.walk(f.node))
+                        popped = {ast.dump(x.args[0]) for x in ast.walk(f.node) if isinstance(x, ast.Call) and isinstance(x.func, ast.Attribute) and x.func.attr == "pop"
+                                  and isinstance(x.func.value, ast.Attribute) and x.func.value.attr == attr and x.args}
+                        popped |= {ast.dump(t.slice) for x in ast.walk(f.node) if isinstance(x, ast.Delete) for t in x.targets
+                                   if isinstance(t, ast.Subscript) and isinstance(t.value, ast.Attribute) and t.value.attr == attr}
+                        if not wholesale and popped:
+                            for w in keyed:
+                                for t in (w.targets if isinstance(w, ast.Assign) else [w.target]):
+                                    if isinstance(t, ast.Subscript) and ast.dump(t.slice) not in popped:
+                                        missing_key = t
+                    if missing_key is not None:
+                        r.bad(Finding("bp-cache-invalidate", f"{c.name}.{name}",
+                                      f"writes `{src_of(missing_key)[:40]}` but drops other entries of the memo `self.{attr}` only: the entry for this key stays stale",
+                                      where=f"{m.relpath}:{missing_key.lineno}", operand=f"{attr}:key"))
+                    elif touches(f, attr):
                         r.ok(q, sample={"class": c.name, "message writer": name, "memo": attr, "filled in": filler, "invalidated": True})
                     else:
                         r.bad(Finding("bp-cache-invalidate", f"{c.name}.{name}",
